@@ -6,16 +6,15 @@
                                                                           -> emit, gen_addr
    GNU as    the meaning of those directives                               -> asm, sym_lookup
 
-   Mirrored quirks of the C code (each is excluded by a kb_ hypothesis in the theorems and shown to be
-   a real deviation in EmitExtra):
-     - global_variable: is_definition = !extern, so `extern int x = 5;` defines nothing;
-     - function(): is_static / is_inline are those of the FIRST declaration only.
-   Repaired in /repo and mirrored here as repaired (Update 2): primary() marks a function named in a
-   file-scope initializer as a root - current_fn is NULL there since function() resets it after the body
-   (f841ff9) - and a redeclaration keeps the mark (is_root = is_root || ...); a block-scope
-   `static _Thread_local` object is thread-local (7f591c9); _Alignas on a block-scope static is
-   honoured (ec870ff: the align field of BStatic is the alignment the declaration asks for); an _Alignas of an
-   earlier file-scope declaration of an object is carried to the later ones (82bbc19: prev_align / new_align).
+   Mirrored quirk of the C code (excluded by kb_extern_init_static in the theorems, shown real in EmitExtra):
+     - global_variable: is_static comes from the specifiers of the declaration itself, so
+       `static int x; extern int x = 5;` emits a GLOBAL x (C11 6.2.2p4: internal linkage).
+   Repaired in /repo and mirrored here as repaired:
+     Update 2 - f841ff9 (current_fn reset, is_root kept), 7f591c9 (block-scope static _Thread_local), ec870ff / 82bbc19
+       (_Alignas on block-scope statics; carried from an earlier file-scope declaration: prev_align / new_align);
+     Update 3 - 2049a24 (an initializer makes a definition, `extern` or not), 85373f4 (is_inline_def: an inline definition
+       becomes external when a later file-scope declaration lacks `inline` or has `extern`), 62ebd1d (owner_fn: a block-scope
+       static is emitted only if its function is live).
    Abstracted away: types (size, alignment, array-ness are given), expression code (a body is the
    list of identifiers it names; every use goes through gen_addr), the bytes of initializers,
    block scopes other than `static` objects, compound literals, builtin alloca (declared, never
@@ -40,7 +39,9 @@ Record obj := mkObj {
   ob_rel : option nat;            (* one relocation at offset 0: .quad name+0 *)
   ob_size : Z; ob_align : Z; ob_array : bool;
   ob_refs : list nat;             (* Obj.refs: names of functions the body mentions *)
-  ob_body : list rref }.
+  ob_body : list rref;
+  ob_inline_def : bool;           (* is_inline_def (85373f4): local only as an inline definition, 6.7.4p7 *)
+  ob_owner : option nat }.        (* owner_fn (62ebd1d): the enclosing function of a block-scope static *)
 
 Definition is_fun_named (n : nat) (o : obj) : bool := ob_function o && ident_eqb (User n) (ob_name o).
 
@@ -63,22 +64,22 @@ Definition update_fun (n : nat) (f : obj -> obj) (gs : list obj) : list obj :=
 
 Definition set_root (o : obj) : obj :=
   mkObj (ob_name o) (ob_function o) (ob_definition o) (ob_static o) (ob_tentative o) (ob_tls o) (ob_inline o) true (ob_live o)
-        (ob_init o) (ob_rel o) (ob_size o) (ob_align o) (ob_array o) (ob_refs o) (ob_body o).
+        (ob_init o) (ob_rel o) (ob_size o) (ob_align o) (ob_array o) (ob_refs o) (ob_body o) (ob_inline_def o) (ob_owner o).
 Definition add_ref (t : nat) (o : obj) : obj :=
   mkObj (ob_name o) (ob_function o) (ob_definition o) (ob_static o) (ob_tentative o) (ob_tls o) (ob_inline o) (ob_root o) (ob_live o)
-        (ob_init o) (ob_rel o) (ob_size o) (ob_align o) (ob_array o) (ob_refs o ++ [t]) (ob_body o).
+        (ob_init o) (ob_rel o) (ob_size o) (ob_align o) (ob_array o) (ob_refs o ++ [t]) (ob_body o) (ob_inline_def o) (ob_owner o).
 Definition set_live (b : bool) (o : obj) : obj :=
   mkObj (ob_name o) (ob_function o) (ob_definition o) (ob_static o) (ob_tentative o) (ob_tls o) (ob_inline o) (ob_root o) b
-        (ob_init o) (ob_rel o) (ob_size o) (ob_align o) (ob_array o) (ob_refs o) (ob_body o).
+        (ob_init o) (ob_rel o) (ob_size o) (ob_align o) (ob_array o) (ob_refs o) (ob_body o) (ob_inline_def o) (ob_owner o).
 
 (* new_gvar + global_variable; a: var->align, see new_align *)
 Definition obj_of_decl (n : nat) (d : objdecl) (a : Z) : obj :=
   let ext := sc_eqb (o_sc d) SC_extern in
-  mkObj (User n) false (negb ext) (sc_eqb (o_sc d) SC_static)
+  mkObj (User n) false (negb ext || has_init (o_init d)) (sc_eqb (o_sc d) SC_static)      (* 2049a24: an initializer makes a definition *)
         (negb (has_init (o_init d)) && negb ext)
         (o_tls d) false false false
         (has_init (o_init d)) (match o_init d with IAddr t => Some t | _ => None end)
-        (o_size d) a (o_array d) [] [].
+        (o_size d) a (o_array d) [] [] false None.
 
 (* global_variable (82bbc19): `prev = find_var(name)` before the new object is made; attr->align wins, otherwise
    the alignment of the earlier declaration of the object stays: MAX(ty->align, prev->var->align) *)
@@ -94,8 +95,8 @@ Definition new_align (d : objdecl) (prev : option Z) : Z :=
   end.
 
 (* new_anon_gvar: static, definition, never tentative; declaration() copies _Thread_local and _Alignas *)
-Definition anon_obj_of (k : nat) (tls hasinit : bool) (size align : Z) (arr : bool) : obj :=
-  mkObj (Anon k) false true true false tls false false false hasinit None size align arr [] [].
+Definition anon_obj_of (k : nat) (tls hasinit : bool) (size align : Z) (arr : bool) (owner : option nat) : obj :=
+  mkObj (Anon k) false true true false tls false false false hasinit None size align arr [] [] false owner.
 
 (* primary() on an identifier that names a function, outside / inside a function *)
 Definition note_fun_ref (cur : option nat) (t : nat) (gs : list obj) : list obj :=
@@ -105,35 +106,42 @@ Definition note_fun_ref (cur : option nat) (t : nat) (gs : list obj) : list obj 
   end.
 
 (* the body of a function: anonymous objects are prepended to globals as they are met *)
-Fixpoint parse_body (sc : list (nat * (bool * bool))) (items : list bitem) (anon : nat) (gs : list obj)
+Fixpoint parse_body (sc : list (nat * (bool * bool))) (fn : nat) (items : list bitem) (anon : nat) (gs : list obj)
                     (refs : list nat) (body : list rref) : list obj * nat * list nat * list rref :=
   match items with
   | [] => (gs, anon, refs, body)
   | BRef m :: r =>
       match resolve sc m with
-      | Some (true, _) => parse_body sc r anon gs (refs ++ [m]) (body ++ [RFun m])
-      | Some (false, tls) => parse_body sc r anon gs refs (body ++ [RObj m tls])
-      | None => parse_body sc r anon gs refs body                  (* C: error "undefined variable" *)
+      | Some (true, _) => parse_body sc fn r anon gs (refs ++ [m]) (body ++ [RFun m])
+      | Some (false, tls) => parse_body sc fn r anon gs refs (body ++ [RObj m tls])
+      | None => parse_body sc fn r anon gs refs body                  (* C: error "undefined variable" *)
       end
   | BStatic tls sz al arr hi :: r =>
-      parse_body sc r (S anon) (anon_obj_of anon tls hi sz al arr :: gs) refs (body ++ [RAnon anon tls])
+      parse_body sc fn r (S anon) (anon_obj_of anon tls hi sz al arr (Some fn) :: gs) refs (body ++ [RAnon anon tls])    (* owner_fn = current_fn *)
   | BString sz :: r =>
-      parse_body sc r (S anon) (anon_obj_of anon false true sz 1 true :: gs) refs (body ++ [RAnon anon false])
+      parse_body sc fn r (S anon) (anon_obj_of anon false true sz 1 true None :: gs) refs (body ++ [RAnon anon false])
   end.
 
 Definition new_fun (n : nat) (sc : sclass) (inl_ : bool) : obj :=
   let st := sc_eqb sc SC_static || (inl_ && negb (sc_eqb sc SC_extern)) in
-  mkObj (User n) true false st false false inl_ false false false None 0 0 false [] [].      (* calloc: is_root = false *)
+  mkObj (User n) true false st false false inl_ false false false None 0 0 false [] []      (* calloc: is_root = false *)
+        (st && negb (sc_eqb sc SC_static)) None.
 
-(* the part of function() that runs for every declaration *)
-Definition redeclare (hasbody : bool) (o : obj) : obj :=
-  mkObj (ob_name o) (ob_function o) (ob_definition o || hasbody) (ob_static o) (ob_tentative o) (ob_tls o) (ob_inline o)
-        (ob_root o || negb (ob_static o && ob_inline o)) (ob_live o)            (* a root mark survives *)
-        (ob_init o) (ob_rel o) (ob_size o) (ob_align o) (ob_array o) (ob_refs o) (ob_body o).
+(* the part of function() that runs for every declaration after the first: is_definition accumulates; an inline
+   definition becomes an external one when this file-scope declaration lacks `inline` or has `extern` (85373f4);
+   then, for every declaration, is_root = is_root || !(is_static && is_inline) *)
+Definition clears_inline_def (sc : sclass) (inl_ : bool) : bool := negb (sc_eqb sc SC_static) && (negb inl_ || sc_eqb sc SC_extern).
+Definition redeclare (first : bool) (hasbody : bool) (sc : sclass) (inl_ : bool) (o : obj) : obj :=
+  let clr := negb first && ob_inline_def o && clears_inline_def sc inl_ in
+  let st := if clr then false else ob_static o in
+  mkObj (ob_name o) (ob_function o) (ob_definition o || hasbody) st (ob_tentative o) (ob_tls o) (ob_inline o)
+        (ob_root o || negb (st && ob_inline o)) (ob_live o)
+        (ob_init o) (ob_rel o) (ob_size o) (ob_align o) (ob_array o) (ob_refs o) (ob_body o)
+        (if clr then false else ob_inline_def o) (ob_owner o).
 (* what compound_stmt leaves in the function object *)
 Definition set_body (refs : list nat) (body : list rref) (o : obj) : obj :=
   mkObj (ob_name o) (ob_function o) (ob_definition o) (ob_static o) (ob_tentative o) (ob_tls o) (ob_inline o) (ob_root o) (ob_live o)
-        (ob_init o) (ob_rel o) (ob_size o) (ob_align o) (ob_array o) (ob_refs o ++ refs) body.
+        (ob_init o) (ob_rel o) (ob_size o) (ob_align o) (ob_array o) (ob_refs o ++ refs) body (ob_inline_def o) (ob_owner o).
 
 Definition step (s : pstate) (d : decl) : pstate :=
   match d with
@@ -152,15 +160,15 @@ Definition step (s : pstate) (d : decl) : pstate :=
       let hasbody := match body with Some _ => true | None => false end in
       let '(gs1, scope1) :=
         match find_fun n (ps_globals s) with
-        | Some _ => (update_fun n (redeclare hasbody) (ps_globals s), ps_scope s)
-        | None => (redeclare hasbody (new_fun n sc inl_) :: ps_globals s, (n, (true, false)) :: ps_scope s)
+        | Some _ => (update_fun n (redeclare false hasbody sc inl_) (ps_globals s), ps_scope s)
+        | None => (redeclare true hasbody sc inl_ (new_fun n sc inl_) :: ps_globals s, (n, (true, false)) :: ps_scope s)
         end in
       match body with
       | None => mkPS gs1 scope1 (ps_anon s) (ps_cur s)
       | Some items =>
           let a := ps_anon s in
-          let gs2 := anon_obj_of (S a) false true fsz 1 true :: anon_obj_of a false true fsz 1 true :: gs1 in   (* __func__, __FUNCTION__ *)
-          let '(gs3, a3, refs, rb) := parse_body scope1 items (S (S a)) gs2 [] [] in
+          let gs2 := anon_obj_of (S a) false true fsz 1 true None :: anon_obj_of a false true fsz 1 true None :: gs1 in   (* __func__, __FUNCTION__ *)
+          let '(gs3, a3, refs, rb) := parse_body scope1 n items (S (S a)) gs2 [] [] in
           mkPS (update_fun n (set_body refs rb) gs3) scope1 a3 None      (* current_fn = NULL at the end of function() *)
       end
   end.
@@ -230,8 +238,15 @@ Inductive directive :=
 
 Definition eff_align (o : obj) : Z := if ob_array o && (16 <=? ob_size o)%Z then Z.max 16 (ob_align o) else ob_align o.
 
-Definition emit_data_obj (fc : bool) (o : obj) : list directive :=
+(* 62ebd1d: a block-scope static goes away with a function that is not emitted *)
+Definition owner_live (prog : list obj) (o : obj) : bool :=
+  match ob_owner o with
+  | Some g => match find_fun g prog with Some f => ob_live f | None => false end
+  | None => true
+  end.
+Definition emit_data_obj (fc : bool) (prog : list obj) (o : obj) : list directive :=
   if ob_function o || negb (ob_definition o) then []
+  else if negb (owner_live prog o) then []
   else
     let nm := ob_name o in
     (if ob_static o then D_local nm else D_globl nm) ::
@@ -262,7 +277,7 @@ Definition emit_text_obj (pic : bool) (prog : list obj) (o : obj) : list directi
     flat_map (fun r => map D_insn (gen_addr pic (var_of_ref prog r)) ++ [D_code]) (ob_body o) ++ [D_code].
 
 Definition emit (o : opts) (prog : list obj) : list directive :=
-  flat_map (emit_data_obj (fcommon o)) prog ++ flat_map (emit_text_obj (fpic o) prog) prog.
+  flat_map (emit_data_obj (fcommon o) prog) prog ++ flat_map (emit_text_obj (fpic o) prog) prog.
 
 (* ---------- GNU as, for the directive sequences above ---------- *)
 Inductive event :=
@@ -352,18 +367,11 @@ Definition anon_placements (ds : list directive) : list anon_obj :=
                                                          (match al with Some a => a | None => 1%Z end)]
                           | _ => [] end) evs).
 
-(* ---------- the deviations of the C code from C11 that this model mirrors, as predicates on the
-   translation unit (EmitProofs shows each one is real) ---------- *)
-(* `extern int x = 5;` *)
-Definition kb_extern_init (ds : list decl) : bool :=
-  existsb (fun d => match d with DObj _ od => sc_eqb (o_sc od) SC_extern && has_init (o_init od) | _ => false end) ds.
-(* first declaration `inline` alone, but not every declaration is inline-without-extern:
-   C11 6.7.4p7 makes the definition external, chibicc keeps it local *)
-Definition kb_inline_first_seq (s : list fundecl) : bool :=
-  match s with
-  | d :: _ => fd_inl d && sc_eqb (fd_sc d) SC_none && negb (forallb inline_no_extern s)
-  | [] => false
-  end.
-Definition kb_inline_first (ds : list decl) : bool := existsb (fun n => kb_inline_first_seq (funseq n ds)) (declared_names ds).
-Definition no_known_bad (ds : list decl) : bool :=
-  negb (kb_extern_init ds || kb_inline_first ds).
+(* ---------- the one deviation of the C code from C11 that this model still mirrors (EmitExtra shows it is real) ---------- *)
+(* `static int x; extern int x = 5;`: 6.2.2p4 keeps the internal linkage, global_variable takes is_static from this
+   declaration's specifiers alone and emits a GLOBAL x *)
+Definition kb_extern_init_static_seq (s : list objdecl) : bool :=
+  existsb (fun d => sc_eqb (o_sc d) SC_extern && has_init (o_init d)) s
+  && match obj_linkage s with Some L_internal => true | _ => false end.
+Definition kb_extern_init_static (ds : list decl) : bool := existsb (fun n => kb_extern_init_static_seq (objseq n ds)) (map decl_name ds).
+Definition no_known_bad (ds : list decl) : bool := negb (kb_extern_init_static ds).
